@@ -1,7 +1,27 @@
-//! op "parse" (stub: answers bad-op until the engine is built)
+//! op "parse": the real expression parser (`xray.pest` rule `eval` + `parse_expr` of parser.rs) on source
+//! texts; answers the desugared static expression tree (`XStaticExpr`, before overload resolution) of each
+//! text as an S-expression, `syntax-error`, `parse-error ..` or `panic`.
+//!   {"op":"parse","srcs":["a + b * c", ..]}  ->  {"rs":["(call (id add) (id a) (call (id mul) (id b) (id c)))", ..]}
 
+use crate::run::{R, T, W};
 use serde_json::{json, Value};
+use std::panic::{catch_unwind, AssertUnwindSafe};
+use xray::builtin::verif_hooks::parse as hooks;
+use xray::root_compilation_scope::RootCompilationScope;
+use xray::std_compilation_scope;
 
-pub fn op(_req: &Value) -> Value {
-    json!({"bad-op": true})
+pub fn op(req: &Value) -> Value {
+    let mut comp: RootCompilationScope<W, R, T> = std_compilation_scope();
+    let empty = vec![];
+    let srcs = req["srcs"].as_array().unwrap_or(&empty);
+    let mut rs = Vec::with_capacity(srcs.len());
+    for s in srcs {
+        let src = s.as_str().unwrap_or("");
+        let r = catch_unwind(AssertUnwindSafe(|| hooks::parse_expr_dump(&mut comp, src)));
+        rs.push(match r {
+            Ok(s) => s,
+            Err(_) => "panic".to_string(),
+        });
+    }
+    json!({ "rs": rs })
 }
